@@ -25,6 +25,7 @@ impl<M: MovingAverageConstructor> RelativeStrengthIndex<M> {
 		// documented seeds: both smoothed series start at 0, the previous input at the source price
 		r is Ok ==> r->Ok_0.previous_input@ == src_val(candle, self.source)
 			&& self.ma.seeded(0real, &r->Ok_0.posma) && self.ma.seeded(0real, &r->Ok_0.negma),
+		r is Ok ==> r->Ok_0.posma.convex() == self.ma.convex_kind() && r->Ok_0.negma.convex() == self.ma.convex_kind(),
 //@replace Ok(Self::Instance { ==> Ok(RelativeStrengthIndexInstance {
 //@end
 }
@@ -52,8 +53,8 @@ impl<M: MovingAverageConstructor> RelativeStrengthIndexInstance<M> {
 	}
 //@extract src/indicators/relative_strength_index.rs impl[IndicatorInstance for RelativeStrengthIndexInstance<M>]::next pub into=action
 	// the debug assertion `pos + neg != 0` is discharged for averaging kinds that cannot overshoot
-	requires old(self).inv(), <M::Instance as MovingAverage>::convex(), old(self).nonneg()
-	ensures final(self).inv(), final(self).cfg == old(self).cfg, final(self).nonneg(),
+	requires old(self).inv(), old(self).posma.convex() && old(self).negma.convex(), old(self).nonneg()
+	ensures final(self).inv(), final(self).cfg == old(self).cfg, final(self).nonneg(), final(self).posma.convex() && final(self).negma.convex(),
 		r.length == (1u8, 2u8),
 		exists|up: ValueType, dn: ValueType, p: ValueType, n: ValueType|
 			#[trigger] rsi_step(old(self), src_val(candle, old(self).cfg.source), final(self), r.vals()[0]@, up, dn, p, n) && p@ >= 0real && n@ <= 0real,
